@@ -36,7 +36,7 @@ def run(tier):
                     else:
                         nops.append(op)
                 ops = nops
-            cases.append((i, {'PERSONALITY': r.randrange(10), 'STRICT_RAW': 1, 'URLENC_PARSER': r.randrange(2), 'AUTO_DESTROY': r.randrange(2), 'TX_HOOKS': r.randrange(2)}, ops))
+            cases.append((i, {'PERSONALITY': r.randrange(10), 'STRICT_RAW': 1, 'URLENC_PARSER': r.randrange(2), 'AUTO_DESTROY': r.randrange(2), 'TX_HOOKS': r.randrange(3)}, ops))
         path = os.path.join(wd, 'wf%d.hxb' % s)
         hxb.write_batch(path, cases)
         cmds.append([bdir + '/hx', 'run', path, '--crash-dir', wd])
